@@ -9,6 +9,9 @@ identifiers. The writers that iterate a hash map take the map as a *list in iter
 * `replaceExecd l progs` (Model/LayerStore, C01): `for (name, path) in exec_d_programs` visits `progs`; that model leaves an
   empty `exec.d` when a source file is missing. `replaceExecdLoop` below spells the copy loop out (it stops at the first
   missing source and keeps what was copied before) so that the error path can be stated too;
+* `replaceExecdX`: the same function on a view of `exec.d` that keeps storage identity (`XFs`: which names are hard links
+  of one inode, which are symlinks to a sibling or to a file elsewhere), for a restored layer whose `exec.d` is written
+  again; `XFs.copyTo` is `fs::copy` onto a name that may already exist (create-or-truncate through symlinks);
 * `writeLayerTrait`: the trait API's `write_layer` (trait_api/handling.rs), which runs both loops on the data of a
   `LayerResult` (`env`, `exec_d_programs: HashMap`).
 
@@ -58,6 +61,80 @@ def writeLayerTrait (l : Layer) (t : LTypes) (m : Option MetaTbl) (le : LayerEnv
     | .ok => replaceExecdLoop r.1 progs
     | e => (r.1, e)
 
+/-! ### `exec.d` with storage identity (a restored layer written again)
+
+`Dir`/`Node` values have no notion of two names sharing storage. A restored layer's `exec.d` can hold such names: a
+symlink to a sibling or to a file elsewhere, two hard links of one inode (also with a third name outside `exec.d`).
+`fs::copy(src, exec.d/<name>)` opens its destination with `O_CREAT|O_TRUNC` following symlinks, so writing to an
+*existing* name writes whatever storage that name designates. `XFs` keeps that identity for what existed before the call
+(`ino k`: every name carrying the same `k`, inside or outside `exec.d`, is the same file); a file the call itself
+creates has storage of its own (`own`), nothing else can name it before the call returns. -/
+
+/-- what a name inside `exec.d` designates -/
+inductive XEnt
+  | own (b : Bytes)          -- regular file created by this call
+  | ino (k : Nat)            -- regular file that existed before: inode `k`
+  | symSib (t : Bytes)       -- symlink to the sibling name `t` (present or not)
+  | symOut (k : Nat)         -- symlink to a file outside `exec.d`: inode `k`
+  | other                    -- sub-directory, symlink that resolves to nothing writable
+deriving DecidableEq, Repr
+
+/-- `exec.d` (`names`), the content of the pre-existing inodes (`data`), one entry in `outer` per name an inode has outside `exec.d` -/
+structure XFs where
+  names : List (Bytes × XEnt) := []
+  data : List (Nat × Bytes) := []
+  outer : List Nat := []
+deriving Repr
+
+def XFs.setName (fs : XFs) (n : Bytes) (e : XEnt) : XFs :=
+  { fs with names := (n, e) :: fs.names.filter (fun kv => kv.1 != n) }
+def XFs.setData (fs : XFs) (k : Nat) (b : Bytes) : XFs :=
+  { fs with data := (k, b) :: fs.data.filter (fun kv => kv.1 != k) }
+
+/-- `fs::copy(src, exec.d/<n>)` with `b` the source's bytes: create-or-truncate through symlinks (`fuel` = the
+kernel's bound on link resolution; exhausted = ELOOP), then write. `none` = `io::Error`. -/
+def XFs.copyTo (fs : XFs) (n : Bytes) (b : Bytes) : Nat → Option XFs
+  | 0 => none
+  | fuel + 1 =>
+    match List.lookup n fs.names with
+    | none => some (fs.setName n (.own b))
+    | some (.own _) => some (fs.setName n (.own b))
+    | some (.ino k) => some (fs.setData k b)
+    | some (.symOut k) => some (fs.setData k b)
+    | some (.symSib t) => fs.copyTo t b fuel
+    | some .other => none
+
+/-- the copy loop in iteration order (every source present); the flag says whether it completed -/
+def XFs.copyAll : XFs → List (Bytes × Bytes) → XFs × Bool
+  | fs, [] => (fs, true)
+  | fs, (n, b) :: rest =>
+    match fs.copyTo n b 40 with
+    | some fs' => XFs.copyAll fs' rest
+    | none => (fs, false)
+
+/-- `replace_layer_exec_d_programs` on a layer whose `exec.d` is a directory or absent, every source present:
+`remove_dir_all` unlinks every name (storage that has a name elsewhere stays as it is), `create_dir_all` makes a fresh
+directory, then the loop. First component `none` = no `exec.d` afterwards (no program wanted). -/
+def replaceExecdX (fs : XFs) (progs : List (Bytes × Bytes)) : Option XFs × Bool :=
+  if progs.isEmpty then (none, true)
+  else
+    let r := XFs.copyAll { fs with names := [] } progs
+    (some r.1, r.2)
+
+/-- the `Dir` view of `exec.d` -/
+def XFs.node (fs : XFs) : XEnt → Node
+  | .own b => .file b
+  | .ino k => .file ((List.lookup k fs.data).getD [])
+  | .symSib t => .link (match List.lookup t fs.names with | some .other => .toDir | some _ => .toFile | none => .dangling)
+  | .symOut _ => .link .toFile
+  | .other => .dir []
+def XFs.toDir (fs : XFs) : Dir := fs.names.map (fun kv => (kv.1, fs.node kv.2))
+
+/-- how many names the storage behind an entry has -/
+def XFs.nlink (fs : XFs) : XEnt → Nat
+  | .ino k => (fs.names.filter (fun kv => kv.2 == .ino k)).length + (fs.outer.filter (· == k)).length
+  | _ => 1
+
 /-- what the model predicts for the comparison of two runs on identical inputs -/
 def pairObservation : String := "equal"
 
@@ -70,7 +147,7 @@ def coveredIterSites : List Covered := [
   ⟨("libcnb/src/layer_env.rs", "LayerEnv::write_to_layer_dir", "for (process_name,delta) in &self.process", 0),
    "each iteration writes the directory env.launch/<process_name>; the names are distinct map keys: Props/C20 env_iteration_order_irrelevant"⟩,
   ⟨("libcnb/src/layer/shared.rs", "replace_layer_exec_d_programs", "for (name,path) in exec_d_programs", 0),
-   "each iteration copies one file to exec.d/<name>; the names are distinct map keys: Props/C20 execd_iteration_order_irrelevant (when every source exists; the error path keeps an order-dependent subset: execd_error_path_depends_on_order)"⟩,
+   "each iteration copies one file to exec.d/<name>; the names are distinct map keys and exec.d was wiped and re-created just before the loop, so every destination is a fresh file of its own whatever the restored exec.d held (symlinks, hard links): Props/C20 execd_iteration_order_irrelevant, execd_rewrite_ignores_restored_entries (when every source exists; the error path keeps an order-dependent subset: execd_error_path_counterexample)"⟩,
   ⟨("libcnb/src/env.rs", "Env::iter", "self.inner.iter()", 0),
    "public accessor handing the map's iterator to the buildpack author; no caller inside the scanned files (a call would be listed as its own site because `Env` counts as hash-backed)"⟩,
   ⟨("libcnb/src/env.rs", "Env::into_iter", "self.iter()", 0),
